@@ -74,7 +74,7 @@ pub(crate) fn files_field(rng: &mut Rng, nfiles: usize, max_len: usize) -> Strin
     if nfiles == 0 {
         return "-".into();
     }
-    let mut parts = vec![];
+    let mut parts: Vec<String> = vec![];
     for i in 0..nfiles {
         let mut path = vec![];
         match rng.below(4) {
@@ -82,7 +82,17 @@ pub(crate) fn files_field(rng: &mut Rng, nfiles: usize, max_len: usize) -> Strin
             1 => path.extend_from_slice(b"a/b.c/"),
             _ => {}
         }
-        path.extend_from_slice(&file_name(rng, i));
+        // now and then the same base name as an earlier file, in another directory, with its own
+        // content (every entry's digest is the digest of ITS file)
+        if i > 0 && rng.chance(1, 4) {
+            let prev: &String = &parts[rng.below(parts.len() as u64) as usize];
+            let prev_path = unhex(prev.split(':').next().unwrap()).unwrap();
+            let base = prev_path.rsplit(|b| *b == b'/').next().unwrap().to_vec();
+            path = format!("dup{}/", i).into_bytes();
+            path.extend_from_slice(&base);
+        } else {
+            path.extend_from_slice(&file_name(rng, i));
+        }
         let n = match rng.below(6) {
             0 => 0,
             1 => *rng.pick(&boundary_lengths(rng.clone().below(4) as usize)),
